@@ -402,7 +402,7 @@ class SpreadStrategy(Strategy):
         """Suggest next node from the cycle.
         """
         for _ in six.moves.xrange(0, len(self.node.children)):
-            if self.current_idx == len(self.node.children):
+            if self.current_idx >= len(self.node.children):
                 self.current_idx = 0
 
             current = self.node.children[self.current_idx]
@@ -434,7 +434,7 @@ class PackStrategy(Strategy):
         """Suggest same node as previous placement.
         """
         for _ in six.moves.xrange(0, len(self.node.children)):
-            if self.current_idx == len(self.node.children):
+            if self.current_idx >= len(self.node.children):
                 self.current_idx = 0
             node = self.node.children[self.current_idx]
             if node:
